@@ -630,7 +630,8 @@ func VerifC20_AttestedBounded() {
 // and the common validator is signed for at most once (C01 under overlap).
 func VerifC17_TwoAttests() {
 	optProperty = "C17"
-	optSimpleCommittees, optNoMissing, optNoZeroSig, optValidData, optEpochPresent = true, true, true, true, true
+	// (the epoch may or may not have an attested set yet: the first rounds of an epoch overlap too)
+	optSimpleCommittees, optNoMissing, optNoZeroSig, optValidData, optEpochPresent = true, true, true, true, false
 	d1 := ndDuty(1)
 	e := newAttEnv(d1, false)
 	// second duty: another slot of the same epoch, possibly the same validator
